@@ -83,7 +83,14 @@ class Session:
     def build(self, need_inproc=False, race=False):
         env = go_env()
         log("building crd from", REPO)
-        sh(["go", "build", "-tags", "verif", "-o", self.crd, "./cmd"], cwd=REPO, env=env, timeout=600)
+        rc, out = sh(["go", "build", "-tags", "verif", "-o", self.crd, "./cmd"], cwd=REPO, env=env, timeout=600, check=False)
+        if rc != 0:
+            # the guarded hooks may not compile against a changed tree: the verdict path needs no hook, build without the tag
+            rc2, out2 = sh(["go", "build", "-o", self.crd, "./cmd"], cwd=REPO, env=env, timeout=600, check=False)
+            if rc2 != 0:
+                raise Undecided("crd does not build: %s" % out2[-3000:])
+            self.notes.append("the verif hooks do not compile against this tree; built without the tag, in-process traces unavailable: " + out[-300:])
+            self.hooks_broken = True
         if race:
             sh(["go", "build", "-race", "-tags", "verif", "-o", self.crd + ".race", "./cmd"], cwd=REPO, env=env, timeout=900)
         # go.sum of the harness follows the repository's
@@ -98,7 +105,7 @@ class Session:
             gm = open(os.path.join(hsrc, "go.mod")).read().replace("=> /repo", "=> " + REPO)
             open(os.path.join(hsrc, "go.mod"), "w").write(gm)
         sh(["go", "build", "-o", self.vdrive, "./cmd/vdrive"], cwd=hsrc, env=env, timeout=600)
-        if need_inproc:
+        if need_inproc and not getattr(self, "hooks_broken", False):
             rc, out = sh(["go", "build", "-tags", "verif", "-o", self.vinproc, "./cmd/vinproc"], cwd=hsrc, env=env,
                          timeout=600, check=False)
             self.inproc_ok = rc == 0
